@@ -12,7 +12,7 @@
 
 use lyon_path::commands::PathCommands;
 use lyon_path::iterator::FromPolyline;
-use lyon_path::math::{point, Point};
+use lyon_path::math::{point, Point, Translation};
 use lyon_path::path_buffer::PathBuffer;
 use lyon_path::polygon::{IdPolygon, Polygon};
 use lyon_path::{ControlPointId, EndpointId, Event, EventId, IdEvent, Path, PathEvent, PathSlice};
@@ -619,8 +619,9 @@ fn with_numbered_attrs(prog: &[Op], n: usize) -> Vec<Op> {
 fn path_case<G: FnOnce(&mut Rng) -> (bool, usize, Vec<Op>)>(ctx: &mut Ctx, label: &'static str, g: G) {
     ctx.case("path", |rng: &mut Rng| {
         let (plain, n, prog) = g(rng);
+        let (dx, dy) = (rng.range(-5, 5) as i32, rng.range(-5, 5) as i32);
         let mut args = Out::new();
-        args.t(if plain { "plain" } else { "attr" }).u(n as u64);
+        args.t(if plain { "plain" } else { "attr" }).u(n as u64).i(dx as i64).i(dy as i64);
         put_prog(&mut args, &prog);
         let tag = format!("{} {} n{} {}", label, if plain { "plain" } else { "attr" }, n, prog_tag(&prog));
         (args, tag, move || {
@@ -644,6 +645,16 @@ fn path_case<G: FnOnce(&mut Rng) -> (bool, usize, Vec<Op>)>(ctx: &mut Ctx, label
             let le = path.last_endpoint();
             put_endpoint(&mut o, "first", &fe);
             put_endpoint(&mut o, "last", &le);
+            let sl = path.as_slice();
+            let slice_attr: Vec<Ce> = sl.iter_with_attributes().map(|e| ce_attr(&e)).collect();
+            put_ces(&mut o, "slice", &slice_attr);
+            let xfp = path.clone().transformed(&Translation::new(dx as f32, dy as f32));
+            let xf: Vec<Ce> = xfp.iter().map(|e| ce_path(&e)).collect();
+            let xfa: Vec<Ce> = xfp.iter_with_attributes().map(|e| ce_attr(&e)).collect();
+            let xfl = xfp.last_endpoint();
+            put_ces(&mut o, "xf", &xf);
+            put_ces(&mut o, "xfa", &xfa);
+            put_endpoint(&mut o, "xflast", &xfl);
 
             // oracle
             let spec = spec_events(&prog);
@@ -683,6 +694,17 @@ fn path_case<G: FnOnce(&mut Rng) -> (bool, usize, Vec<Op>)>(ctx: &mut Ctx, label
             let want_last = spec.last().map(|e| if e.close { e.pts[1].clone() } else { e.pts[0].clone() });
             let got_last = le.map(|e| cpa(&e));
             orc.check(got_last == want_last, "path.last_endpoint/spec", "generic", || format!("{:?} vs {:?}", got_last, want_last));
+            // Path::transformed: every view of the transformed path is the transformed view
+            let mv = |c: &Cp| Cp { p: (c.p.0 + dx as f32, c.p.1 + dy as f32), a: c.a.clone() };
+            let spec_xf: Vec<Ce> = spec.iter().map(|e| Ce { k: e.k, pts: e.pts.iter().map(mv).collect(), close: e.close }).collect();
+            orc.check(xf == strip(&spec_xf), "path.transformed.iter/spec", "generic", || first_diff(&xf, &strip(&spec_xf)));
+            orc.check(xfa == spec_xf, "path.transformed.iter_with_attributes/spec", "generic", || first_diff(&xfa, &spec_xf));
+            let closed_last = spec.last().map(|e| e.close).unwrap_or(false);
+            let want_xfl = want_last.as_ref().map(mv);
+            let got_xfl = xfl.map(|e| cpa(&e));
+            orc.check(got_xfl == want_xfl, "path.transformed.last_endpoint/spec",
+                if closed_last && (dx != 0 || dy != 0) { "closed-last-sub-path" } else { "generic" },
+                || format!("{:?} vs {:?}", got_xfl, want_xfl));
             CaseOut { imp: o, orcl: orc.verdict }
         })
     });
